@@ -218,6 +218,9 @@ class PipeCase:
         o = self._outcome('ok', '', out_path)
         if self.want_lines and _captured_lines['top'] is not None:
             o.lines = line_infos(list(_captured_lines['top']) + list(_captured_lines['predef']))
+            for li in o.lines:
+                if li.compilable and not isinstance(li.address, E.SymInt):
+                    raise E.HarnessError(f'line address is not a proxy (dict keys would split by hash): {li!r}')
         return o
 
     def _outcome(self, kind, msg, out_path):
@@ -294,8 +297,8 @@ class PipeCase:
 def _wrap_numbers(cfg):
     """Make address-like leaves proxies so that dictionaries keyed by addresses hold proxies only."""
     g = cfg.get('general', {}) if isinstance(cfg, dict) else {}
-    if 'origin' in g and isinstance(g['origin'], builtins.int):
-        g['origin'] = E.SymInt(E.bvval(g['origin']))
+    if isinstance(g.get('origin', 0), builtins.int):
+        g['origin'] = E.SymInt(E.bvval(g.get('origin', 0)))
     pre = cfg.get('predefined') if isinstance(cfg, dict) else None
     if isinstance(pre, dict):
         for z in pre.get('memory_zones', []) or []:
